@@ -163,6 +163,9 @@ def case(spec):
             for v in s.volumes:
                 ents = v.cat.all_entries()
                 dv = '%d%s' % (drive, v.label or '')
+                if v.label == 'A' and rng.random() < 0.4:
+                    dv = str(drive)        # on an Opus disc the drive number alone means volume A
+                    res.add('opus_volume_A_by_bare_drive_number', 1)
                 for e in ents:
                     res.seen('mixed_byte_values', e.mixed())
                     res.seen('low_words', (e.load & 0xFFFF) in LOW_WORDS and (e.load & 0xFFFF))
